@@ -157,9 +157,6 @@ def project_sig(model_classes, apps_order=None):
     for (app, _n), cls in model_classes.items():
         by_app.setdefault(app, []).append(cls)
     for app in (apps_order or by_app):
-        if not by_app.get(app):
-            # an app without models has no entry (as for a real project)
-            continue
         asig = AppSignature(app_id=app)
         for cls in by_app.get(app, []):
             asig.add_model(cls)
